@@ -317,18 +317,22 @@ func (v *DataModelView) DrawEnum(name string, entity *sysl.Type_Enum) {
 
 	// Prepare the enum names to be written in the order of their numeric values.
 	// Ideally they would be written in the same order they appear in the source, but SourceContext
-	// is not available for enum values.
-	vals := make([]int, 0, len(entity.Items))
-	valToName := make(map[int]string, len(entity.Items))
-	for name, val := range entity.Items {
-		vals = append(vals, int(val))
-		valToName[int(val)] = name
+	// is not available for enum values. Two names may stand for one value: those are written in
+	// the order of the names, so that every name appears and the order does not depend on the map.
+	names := make([]string, 0, len(entity.Items))
+	for name := range entity.Items {
+		names = append(names, name)
 	}
-	sort.Ints(vals)
+	sort.Slice(names, func(i, j int) bool {
+		if entity.Items[names[i]] != entity.Items[names[j]] {
+			return entity.Items[names[i]] < entity.Items[names[j]]
+		}
+		return names[i] < names[j]
+	})
 
 	v.StringBuilder.WriteString(fmt.Sprintf("enum \"%s\" as %s {\n", name, encEntity))
-	for _, val := range vals {
-		v.StringBuilder.WriteString(fmt.Sprintf("%s\n", valToName[val]))
+	for _, name := range names {
+		v.StringBuilder.WriteString(fmt.Sprintf("%s\n", name))
 	}
 	v.StringBuilder.WriteString("}\n")
 }
